@@ -80,6 +80,11 @@ CHECKS["C15"] = dict(engine="wire", technique="property-based testing over excha
    note="Real sleeps (std::time::Instant); only one-directional claims so that machine load cannot cause an alarm. Quick tier is small (160 cases) because every expiry case sleeps ~0.2-0.4 s.",
    ref="7.5 / C15")
 
+CHECKS["C14"] = dict(engine="svc", technique="property-based testing of the real service behind a scripted handler: generated table contents and requests, validity predicates over the emitted responses",
+   text="Exploration: generated tables (incl. many 300-byte records) and FINDNODE/PING requests (all distance-list shapes, requester stored or not, ports incl. 0, record changes in between); every emitted NODES/PONG is checked for id, destination, total, membership/distance/no-requester/no-duplicates, count range, wire size <= 1280 through the real codecs, and the PONG's seq and observed address.",
+   note="Scripted handler hook; table filled via add_enr; selection among surplus eligible entries is unspecified, so a count range is asserted.",
+   ref="7.4 / C14")
+
 NOT_YET = {}
 
 def main():
@@ -117,6 +122,7 @@ def main():
             {"name": "codec", "path": "harness/src/props/c05.rs, c06.rs, harness/src/refmodel/", "serves_properties": ["C05", "C06"], "kind_free_text": "proptest structured + mutation + byte generators vs. reference codecs"},
             {"name": "filter", "path": "harness/src/props/c18.rs", "serves_properties": ["C18"], "kind_free_text": "proptest arrival sequences over the real Limiter / Filter"},
             {"name": "wire", "path": "harness/src/engines/wire.rs, wire_interp.rs", "serves_properties": ["C01", "C02", "C03", "C04", "C13", "C15", "C19"], "kind_free_text": "real Handlers on an in-memory wire inside a paused single-threaded tokio runtime; proptest op schedules"},
+            {"name": "svc", "path": "harness/src/engines/svc.rs", "serves_properties": ["C11", "C12", "C14", "C17", "C20"], "kind_free_text": "real Discv5/Service with a scripted handler (channels), paused clock; proptest scripts"},
             {"name": "table", "path": "harness/src/engines/table.rs", "serves_properties": ["C07", "C08", "C16"], "kind_free_text": "proptest op histories over the real KBucketsTable"},
         ],
         "checks": checks,
